@@ -371,6 +371,207 @@ func c14MgrCoq(c *c13Case) string {
 	return fmt.Sprintf("inr (%s, [%s], [%s], [%s], [%s], [%s])", kind, strings.Join(table, "; "), strings.Join(answers, ";\n   "), strings.Join(inst, "; "), strings.Join(cs, "; "), strings.Join(os, "; "))
 }
 
+// ---------- manager histories with HEALTH events (kinds mgrh-modhash / mgrh-conhash) ----------
+// ops: refresh (one registry answer), remove (the endpoint fails five times and checkStatus deactivates it),
+// add (the probe is answered: reset + addAliveEp), select (SelectAdapterProxy with the hash type of the kind).
+// The same selector-level history is the model's (Hist.hist_check: Refresh of the installed order, Remove, Add),
+// and a fresh selector of the harness driven through it on slices nobody else holds is the L3 reference.
+func (e c13Ep) epf() endpointf.EndpointF {
+	return endpointf.EndpointF{Host: e.Host, Port: e.Port, Timeout: 3000, Istcp: 1, Weight: e.Weight, WeightType: e.WType}
+}
+
+func c14MgrInstalledOrder(l []c13Ep) []c13Ep {
+	out := append([]c13Ep(nil), l...)
+	sort.Slice(out, func(i, j int) bool { return out[i].Host < out[j].Host })
+	key := func(e c13Ep) uint32 { return crc32.ChecksumIEEE([]byte(endpoint.Tars2endpoint(e.epf()).Key)) }
+	sort.SliceStable(out, func(i, j int) bool { return key(out[i]) < key(out[j]) })
+	return out
+}
+
+func c14MgrHealthGen(tier string, rng *rand.Rand) []c13Case {
+	n := 18
+	if tier == "thorough" {
+		n = 300
+	}
+	var cs []c13Case
+	for it := 0; it < n; it++ {
+		k := 3 + rng.Intn(4)
+		var f []c13Ep
+		static := it%2 == 0
+		for i := 0; i < k; i++ {
+			e := c13Ep{Host: fmt.Sprintf("10.6.%d.%d", it%200, i+1), Port: 10000}
+			if static {
+				e.WType, e.Weight = 1, []int32{1, 3, 4, 8, 40, 100, 100}[rng.Intn(7)]
+			} else if it%6 == 1 && i == 0 {
+				e.WType, e.Weight = 1, 100 // mixed types: unweighted
+			}
+			f = append(f, e)
+		}
+		rng.Shuffle(len(f), func(i, j int) { f[i], f[j] = f[j], f[i] })
+		inst := c14MgrInstalledOrder(f)
+		kind := []string{"mgrh-modhash", "mgrh-conhash"}[(it/2)%2]
+		c := c13Case{Kind: kind, Weighted: static, Class: fmt.Sprintf("%s/static=%v", kind, static)}
+		sel := func(cur []c13Ep) {
+			codes := []uint32{0, 1, 0x7fffffff, 0x80000000, 0xffffffff}
+			if kind == "mgrh-modhash" {
+				for h := uint32(0); h < uint32(2*len(inst)+3); h++ {
+					codes = append(codes, h, 0xfffffff0+h)
+				}
+			} else {
+				var keys []uint32
+				for _, e := range cur {
+					keys = append(keys, c13PointsOf("conhash-ketama", static, e)...)
+				}
+				sort.Slice(keys, func(a, b int) bool { return keys[a] < keys[b] })
+				for i := 0; i < len(keys); i += 1 + len(keys)/6 {
+					codes = append(codes, keys[i], keys[i]-1, keys[i]+1)
+				}
+			}
+			for i := 0; i < 8; i++ {
+				codes = append(codes, rng.Uint32())
+			}
+			c.Ops = append(c.Ops, c13Op{Op: "select", Codes: codes})
+		}
+		c.Ops = append(c.Ops, c13Op{Op: "refresh", Eps: f})
+		sel(inst)
+		// victims by position in the installed order: first / middle / last, one or two of them
+		pos := []int{0, len(inst) / 2, len(inst) - 1}
+		v := []int{pos[it%3]}
+		if rng.Intn(2) == 0 && pos[(it+1)%3] != v[0] {
+			v = append(v, pos[(it+1)%3])
+		}
+		cur := append([]c13Ep(nil), inst...)
+		without := func(l []c13Ep, h string) []c13Ep {
+			var o []c13Ep
+			for _, e := range l {
+				if e.Host != h {
+					o = append(o, e)
+				}
+			}
+			return o
+		}
+		for _, p := range v {
+			c.Ops = append(c.Ops, c13Op{Op: "remove", Eps: []c13Ep{inst[p]}})
+			cur = without(cur, inst[p].Host)
+			sel(cur)
+		}
+		c.Class += fmt.Sprintf("/down-%d-of-%d", len(v), len(inst))
+		for _, p := range v {
+			c.Ops = append(c.Ops, c13Op{Op: "add", Eps: []c13Ep{inst[p]}})
+			cur = append(cur, inst[p])
+			sel(cur)
+		}
+		cs = append(cs, c)
+	}
+	return cs
+}
+
+func c14MgrHealthRun(c *c13Case) (fs []Failure) {
+	selKind, ht := "modhash", tars.ModHash
+	if c.Kind == "mgrh-conhash" {
+		selKind, ht = "conhash-ketama", tars.ConsistentHash
+	}
+	c14MgrSeq++
+	reg := &c14MgrRegistrar{}
+	m := tars.VerifC15NewManager(fmt.Sprintf("VerifC14.Health%d.Obj", c14MgrSeq), tars.NewCommunicator(tars.Registrar(reg)))
+	ref := c13NewSelector(selKind, c.Weighted)
+	abs := &c13AbsSet{}
+	mep := func(e c13Ep) endpoint.Endpoint { return endpoint.Tars2endpoint(e.epf()) }
+	byHost := map[string]c13Ep{}
+	active := func() string { return strings.Join(m.ActiveEp(), ",") }
+	reported := map[string]bool{}
+	fail := func(sig, desc string) {
+		if !reported[sig] {
+			reported[sig] = true
+			fs = append(fs, Failure{Sig: sig, Desc: desc})
+		}
+	}
+	adapterOf := func(h string) *tars.AdapterProxy {
+		for i := 0; i < 4000; i++ {
+			if a := m.Adapters()[h]; a != nil {
+				return a
+			}
+			m.Select(false, ht, 0) // plain calls rotate over the members and create their adapters
+		}
+		return nil
+	}
+	for i := range c.Ops {
+		o := &c.Ops[i]
+		switch o.Op {
+		case "refresh":
+			reg.active = nil
+			for _, e := range o.Eps {
+				reg.active = append(reg.active, e.epf())
+				byHost[e.Host] = e
+			}
+			_ = m.Refresh()
+			var inst []c13Ep // the model and the reference take the list in the order the manager installed it
+			for _, h := range m.ActiveEp() {
+				inst = append(inst, byHost[h])
+			}
+			o.Eps, o.Ok = inst, true
+			l := make([]endpoint.Endpoint, len(inst))
+			for j, e := range inst {
+				l[j] = mep(e)
+			}
+			ref.Refresh(l)
+			abs.refresh(inst)
+		case "remove":
+			adp := adapterOf(o.Eps[0].Host)
+			if adp == nil {
+				fail("hash-routing/manager/no-adapter", "no adapter was ever handed out for "+o.Eps[0].Host)
+				return fs
+			}
+			for j := 0; j < 6; j++ {
+				adp.VerifC15FailAdd()
+			}
+			m.CheckStatus()
+			o.Ok = !strings.Contains(","+active()+",", ","+o.Eps[0].Host+",")
+			_ = ref.Remove(mep(o.Eps[0]))
+			if want := abs.remove(o.Eps[0]); want != o.Ok {
+				fail("hash-routing/manager/endpoint-not-deactivated", fmt.Sprintf("after six failures and a status check %s is still active (%s)", o.Eps[0].Host, active()))
+			}
+		case "add":
+			adp := m.Adapters()[o.Eps[0].Host]
+			if adp == nil {
+				return fs
+			}
+			m.Reinstate(adp)
+			o.Ok = strings.Contains(","+active()+",", ","+o.Eps[0].Host+",")
+			_ = ref.Add(mep(o.Eps[0]))
+			if want := abs.add(o.Eps[0]); want != o.Ok {
+				fail("hash-routing/manager/endpoint-not-reinstated", fmt.Sprintf("after the reinstatement %s is not active (%s)", o.Eps[0].Host, active()))
+			}
+		case "select":
+			o.Obs = nil
+			for _, code := range o.Codes {
+				h := ""
+				if adp, _ := m.Select(true, ht, code); adp != nil {
+					h = adp.GetPoint().Host
+				}
+				o.Obs = append(o.Obs, h)
+				e, err := ref.Select(c13Msg{code})
+				switch {
+				case h != "" && !abs.has(h):
+					fail("hash-routing/manager/non-member", fmt.Sprintf("%s code %d routed to %s which is not active (active: %s, op %d)", selKind, code, h, active(), i))
+				case err == nil && e.Host != h:
+					fail("hash-routing/manager/"+selKind+"/after-health-change-differs", fmt.Sprintf("%s code %d: the manager routes to %q; a %s selector of its own driven through the same refresh / deactivate / reinstate history selects %s (active endpoints as the manager reports them: %s; %d active, op %d)", selKind, code, h, selKind, e.Host, active(), len(abs.eps), i))
+				}
+			}
+		}
+	}
+	return fs
+}
+
+func c14MgrHealthCoq(c *c13Case) string {
+	cc := *c
+	cc.Kind = "modhash"
+	if c.Kind == "mgrh-conhash" {
+		cc.Kind = "conhash-ketama"
+	}
+	return c13Coq(&cc)
+}
+
 // c14MgrHistories runs the scenario in a child process and judges the report
 func c14MgrHistories(tier string, rng *rand.Rand, res *Result) {
 	n := 120
